@@ -32,6 +32,8 @@ from io import TextIOWrapper
 from typing import Dict, Tuple, List, Optional, Iterable, cast, Any, Set
 
 import toml
+from antlr4 import InputStream
+from antlr4.error.ErrorListener import ErrorListener
 from grammar_graph import gg
 from returns.functions import tap
 from returns.maybe import Nothing, Some
@@ -53,6 +55,8 @@ from isla.isla_predicates import (
 )
 from isla.isla_shortcuts import true
 from isla.language import parse_bnf, parse_isla, StructuralPredicate, SemanticPredicate
+from isla.bnf.bnfLexer import bnfLexer
+from isla.isla_language.IslaLanguageLexer import IslaLanguageLexer
 from isla.solver import (
     ISLaSolver,
     GrammarBasedBlackboxCostComputer,
@@ -715,6 +719,26 @@ def ensure_constraint_present(
         exit(USAGE_ERROR)
 
 
+def assert_no_illegal_characters(lexer_class, inp: str) -> None:
+    """
+    The ANTLR lexers only print a "token recognition error" for characters that are
+    not part of the language and skip them. A specification containing such characters
+    is malformed; we raise a SyntaxError instead of silently ignoring them.
+
+    :param lexer_class: The lexer to use (for ISLa constraints or BNF grammars).
+    :param inp: The specification text to check.
+    """
+
+    class RaisingErrorListener(ErrorListener):
+        def syntaxError(self, recognizer, offending_symbol, line, column, msg, e):
+            raise SyntaxError(f"line {line}:{column} {msg}")
+
+    lexer = lexer_class(InputStream(inp))
+    lexer.removeErrorListeners()
+    lexer.addErrorListener(RaisingErrorListener())
+    lexer.getAllTokens()
+
+
 def parse_constraint(
     subcommand: str,
     constraint_arg: Optional[List[str]],
@@ -733,6 +757,7 @@ def parse_constraint(
     try:
         for constraint_str in constraint_arg:
             with redirect_stderr(stderr):
+                assert_no_illegal_characters(IslaLanguageLexer, constraint_str)
                 constraint &= parse_isla(
                     constraint_str,
                     structural_predicates=structural_predicates,
@@ -743,8 +768,12 @@ def parse_constraint(
         for constraint_file_name in filter(lambda f: f.endswith(".isla"), files):
             with open(constraint_file_name, "r") as constraint_file:
                 with redirect_stderr(stderr):
+                    constraint_file_content = constraint_file.read()
+                    assert_no_illegal_characters(
+                        IslaLanguageLexer, constraint_file_content
+                    )
                     constraint &= parse_isla(
-                        constraint_file.read(),
+                        constraint_file_content,
                         structural_predicates=structural_predicates,
                         semantic_predicates=semantic_predicates,
                         grammar=grammar,
@@ -767,6 +796,7 @@ def parse_grammar(
     try:
         if grammar_arg:
             with redirect_stderr(stderr):
+                assert_no_illegal_characters(bnfLexer, grammar_arg)
                 grammar = parse_bnf(grammar_arg)
         else:
             grammar = {}
@@ -777,6 +807,7 @@ def parse_grammar(
                     with redirect_stderr(stderr):
                         grammar_file_content = grammar_file.read()
                         if grammar_file_name.endswith(".bnf"):
+                            assert_no_illegal_characters(bnfLexer, grammar_file_content)
                             grammar |= parse_bnf(grammar_file_content)
                         else:
                             grammar |= process_python_extension(
